@@ -56,7 +56,7 @@ func c09MultiProp(c c09MultiCase) common.Result {
 		if mb.Parent >= 0 && mb.Parent < len(blocks) {
 			parent = blocks[mb.Parent]
 		}
-		b := hotstuff.NewBlock(parent.Hash(), kit.GenesisQC(), &clientpb.Batch{Commands: []*clientpb.Command{{ClientID: 7, SequenceNumber: uint64(i + 1), Data: []byte(fmt.Sprintf("blk%d", i))}}}, hotstuff.View(mb.View), 2)
+		b := kit.NewBlock(parent.Hash(), kit.GenesisQC(), &clientpb.Batch{Commands: []*clientpb.Command{{ClientID: 7, SequenceNumber: uint64(i + 1), Data: []byte(fmt.Sprintf("blk%d", i))}}}, hotstuff.View(mb.View), 2)
 		blocks = append(blocks, b)
 		byHash[b.Hash()] = i
 		for _, st := range cl.Stacks {
@@ -142,11 +142,17 @@ func c09MultiProp(c c09MultiCase) common.Result {
 				return common.Fail("multi:qc-foreign-signers", "the certificate for block %d has signers %s, valid votes for it came from %v\n%s", i, hotstuff.IDSetToString(qc.Signature().Participants()), keys(S[i]), desc)
 			}
 			if err := cl.Stacks[len(cl.Stacks)-1].Auth.VerifyQuorumCert(qc); err != nil {
+				if v := cl.Stacks[len(cl.Stacks)-1]; kit.QuirkSig(v.Cfg, v.base, qc.Signature(), b.ToBytes()) {
+					return common.Fail(kit.KnownBLS, "the certificate for block %d is rejected at another replica (%v) although its signature satisfies the verification equation in other arrangements\n%s", i, err, desc)
+				}
 				return common.Fail("multi:qc-does-not-verify", "the certificate for block %d does not verify at another replica: %v\n%s", i, err, desc)
 			}
 		}
 		if len(emitted) > 0 && !expect {
 			return common.Fail("multi:qc-before-quorum", "a certificate for block %d was emitted although only %v validly voted for it while it was newer than the high QC\n%s", m.Blk, keys(S[m.Blk]), desc)
+		}
+		if expect && len(emitted) == 0 && cl.blsQuirkAmong(sub, S[m.Blk], b.ToBytes()) {
+			return common.Fail(kit.KnownBLS, "a quorum of valid votes for block %d has arrived but no certificate was produced: the collector's scheme rejects one of the valid BLS votes although the signature satisfies the verification equation in other arrangements\n%s", m.Blk, desc)
 		}
 		if expect && len(emitted) == 0 {
 			return common.Fail("multi:qc-missing", "a quorum of valid votes for block %d (view %d, newer than the high QC of view %d) has arrived but no certificate was produced\n%s", m.Blk, b.View(), hq, desc)
